@@ -283,6 +283,9 @@ func (m *Model) childDone(c class, key string, hasKey bool) Verdict {
 	return Accept
 }
 
+// ValidIdentChar is the identifier character class of the CE specification / CTE grammar.
+func ValidIdentChar(r rune) bool { return validIdentChar(r) }
+
 func validIdentChar(r rune) bool {
 	if r == '_' || r == '.' || r == '-' {
 		return true
@@ -298,19 +301,65 @@ func (m *Model) IdentVerdict(id []byte) Verdict {
 	if !utf8.Valid(id) {
 		return Reject
 	}
+	unsure := false
 	for _, r := range string(id) {
-		if !validIdentChar(r) {
+		switch IdentCharVerdict(r) {
+		case Reject:
+			m.Reason = "invalid-identifier-character"
 			return Reject
+		case Either:
+			unsure = true
 		}
 	}
 	nchars := utf8.RuneCount(id)
 	if nchars > m.cfg.MaxIdentifierLength {
+		m.Reason = "identifier-too-long"
 		return Reject
 	}
-	if len(id) > m.cfg.MaxIdentifierLength {
-		return Either // length unit (bytes vs characters) is not fixed by the statement
+	if len(id) > m.cfg.MaxIdentifierLength || unsure {
+		return Either // length unit (bytes vs characters) is not fixed by the statement; or Unicode-version dependent character
 	}
 	return Accept
+}
+
+func inRanges(tab [][2]rune, r rune) bool {
+	lo, hi := 0, len(tab)
+	for lo < hi {
+		mid := (lo + hi) / 2
+		switch {
+		case r < tab[mid][0]:
+			hi = mid
+		case r > tab[mid][1]:
+			lo = mid + 1
+		default:
+			return true
+		}
+	}
+	return false
+}
+
+// IdentCharVerdict: the identifier character class is [Cf L M N _ . -]. General categories of a code point depend on
+// the Unicode version of the table an implementation was generated from, so only code points whose membership is the
+// same in Unicode 3.2 and in Go's current tables have a fixed verdict; the others are don't-cares.
+func IdentCharVerdict(r rune) Verdict {
+	if r == '_' || r == '.' || r == '-' {
+		return Accept
+	}
+	now := validIdentChar(r)
+	old := inRanges(ident32, r)
+	oldAssigned := inRanges(assigned32, r)
+	switch {
+	case now && old:
+		return Accept
+	case !now && oldAssigned && !old:
+		return Reject
+	case r < 0x80:
+		if now {
+			return Accept
+		}
+		return Reject
+	}
+	return Either
 }
 
 func isStringLike(at events.ArrayType) bool {
